@@ -89,7 +89,8 @@ Definition check_pv (c : pv_case) : N :=
 (* tie-break scenario: chain = [parent; old tip]; the competing block is processed with class TieBreak *)
 Record tb_case := mkTB {
   t_prev : block; t_old : block; t_fin : N; t_cs : N; t_app : bstr; t_new : block; t_pe : payload_env; t_ve : venv; t_xe : xenv;
-  t_del_cs : N; t_old_ve : venv; t_old_xe : xenv; t_io : impl_obs }.
+  t_del_cs : N; t_old_ve : venv; t_old_xe : xenv; t_io : impl_obs;
+  t_window : list bh }.     (* BFT window of the state WITHOUT the old tip (where both the competitor and the re-applied tip are judged) *)
 
 (* Result of the tie-break evaluator: a bit mask, so that every conjunct is reported under its own key.
      1   the implementation differs from the model (state, events, application root, DB-unchanged flag)
@@ -102,16 +103,19 @@ Record tb_case := mkTB {
 Definition check_tb (c : tb_case) : N :=
   let s := mkNode [t_prev c; t_old c] (t_cs c) (t_fin c) [] (t_app c) in
   let io := t_io c in
-  let '(o, s') := process s (t_new c) TieBreak (t_pe c) (t_ve c) (t_xe c)
-                          (mkTE (mkDE true true (t_del_cs c)) (t_old_ve c) (t_old_xe c)) in
+  let ve := set_contra (t_ve c) (window_contradicting (t_window c) (b_header (t_new c))) in
+  let old_ve := set_contra (t_old_ve c) (window_contradicting (t_window c) (b_header (t_old c))) in
+  let '(o, s') := process s (t_new c) TieBreak (t_pe c) ve (t_xe c)
+                          (mkTE (mkDE true true (t_del_cs c)) old_ve (t_old_xe c)) in
   let model_accepts := match o with PAccepted => true | _ => false end in
   let agree_model := state_agrees s' io && (if model_accepts then true else io_db_same io) in
-  let valid := valid_block_b (b_header (t_prev c)) (t_new c) (t_pe c) (t_ve c) (t_xe c) in
+  let valid := valid_block_b (b_header (t_prev c)) (t_new c) (t_pe c) ve (t_xe c) in
   let oldh := b_header (t_old c) in
   let newh := b_header (t_new c) in
   let x := t_xe c in
   let del_old := (3, b_code (h_id oldh), 0, 0) in
-  let known_events := [del_old; (1, b_code (h_id oldh), xe_nevents (t_old_xe c), 0)] in
+  let known_events := [del_old; (1, b_code (h_id oldh), xe_nevents (t_old_xe c), 0)]
+                      ++ (if xe_params_changed (t_old_xe c) then [(4, 0, 0, 0)] else []) in
   let raise := t_fin c <? xe_post_precommit x in
   let valid_events := [del_old]
       ++ (if raise then [(2, t_fin c, xe_post_precommit x, b_code (h_id newh))] else [])
